@@ -112,7 +112,17 @@ def gen_case(rng, ctx):
                 burst.append(dict(op="replace", b=b, pick=-2, ev=ev(), rel="older"))
         at = rng.randrange(0, len(ops) + 1)
         ops[at:at] = burst
-    return dict(backend=backend, nb=nb, ops=ops, quiet=rng.random() < 0.35, names=bucket_ids(rng, nb, 0.7), twin=rng.random() < 0.2)
+    second = backend == "sqlite" and rng.random() < 0.25
+    if second:
+        # a second Datastore object on the SAME database file (an importer or a command-line tool next to the server):
+        # some operations of the history go through it, among them deleting and re-creating a bucket
+        for op in ops:
+            if rng.random() < 0.3:
+                op["via"] = 1
+        for _ in range(rng.randrange(0, 3)):
+            ops.insert(rng.randrange(0, len(ops) + 1), dict(op="recreate_bucket", b=rng.randrange(nb), via=1))
+    return dict(backend=backend, nb=nb, ops=ops, quiet=rng.random() < 0.35 and not second, names=bucket_ids(rng, nb, 0.7),
+                twin=rng.random() < 0.2, second=second)
 
 
 def _pick(pick, m):
@@ -237,8 +247,21 @@ def run_case(case, ctx):
         ever = {bid: set() for bid in bids}
         missing_id = 10**9
         payloads = {}
+        ds_main, second, via_prev = ds, None, 0
+        if case.get("second") and backend == "sqlite":
+            ds.buckets()                                   # (a read: nothing of the first handle is left pending)
+            second = Store(backend, ctx.tmp, path=st.path)
+            ctx.count("histories_through_two_handles_on_one_file")
         for k, op in enumerate(case["ops"]):
             bid = bids[op["b"]]
+            if second is not None:
+                via = op.get("via", 0)
+                if via != via_prev:
+                    # the handle used so far reads (which flushes what it has pending) before the other one writes
+                    (second.ds if via_prev else ds_main)[bid].get(1)
+                    via_prev = via
+                    ctx.count("handle_switches")
+                ds = second.ds if via else ds_main
             b, m = ds[bid], model[bid]
             where = f"after op#{k} {op['op']}"
             live = sorted(m)
@@ -356,6 +379,15 @@ def run_case(case, ctx):
                 flags.add("zero-len")
             if any(a[0] < c[0] and c[0] + c[1] < a[0] + a[1] for a in vals for c in vals):
                 flags.add("nested")
+        if second is not None:
+            try:
+                if not viols:
+                    ds[bids[0]].get(1)
+                    for h, hds in (("first", ds_main), ("second", second.ds)):
+                        compare(hds, model, ever, viols, f"at the end, through the {h} handle", ctx)
+            finally:
+                second.close(remove=False)
+            ds = ds_main
         if quiet and not viols:
             compare(ds, model, ever, viols, "at the end of a quiet history", ctx)
         if twin is not None:
